@@ -5,6 +5,7 @@
 # License: http://snmplabs.com/pysmi/license.html
 #
 import os
+import sys
 import time
 import struct
 try:
@@ -101,9 +102,15 @@ class PyPackageSearcher(AbstractSearcher):
                 debug.logger & debug.flagSearcher and debug.logger('%s is not in %s' % (f, self._package))
                 continue
 
-            pyData = self.__loader.get_data(f)
-            if pyData[:4] == PY_MAGIC_NUMBER:
+            pyData = self.__loader.get_data(f)[:12]
+            if pyData[:4] == PY_MAGIC_NUMBER and len(pyData) == 12:
                 pyData = pyData[4:]
+                if sys.version_info[:2] >= (3, 7):
+                    # PEP 552: magic, flags, then mtime (or source hash)
+                    if struct.unpack('<L', pyData[:4])[0] & 1:
+                        debug.logger & debug.flagSearcher and debug.logger('%s is hash-based, no mtime' % f)
+                        continue
+                    pyData = pyData[4:]
                 pyTime = struct.unpack('<L', pyData[:4])[0]
                 debug.logger & debug.flagSearcher and debug.logger(
                     'found %s, mtime %s' % (f, time.strftime("%a, %d %b %Y %H:%M:%S GMT", time.gmtime(pyTime))))
